@@ -228,7 +228,7 @@ def run_prop(name, inputs, unwind, timeout_s, logdir, extra=()):
     except subprocess.TimeoutExpired:
         return {"verdict": "inconclusive", "reason": "cbmc timeout after %ds" % timeout_s, "wall": timeout_s}
     wall = time.time() - t0
-    open(os.path.join(logdir, "cbmc_%s.json" % name), "w").write(p.stdout[-5000000:])
+    open(os.path.join(logdir, "cbmc_%s%s.json" % (name, "".join(extra).replace("-D", "_"))), "w").write(p.stdout[-5000000:])
     try:
         data = json.loads(p.stdout)
     except Exception:
@@ -255,7 +255,8 @@ def run_prop(name, inputs, unwind, timeout_s, logdir, extra=()):
     for r in failed:
         vals = {}
         for st in r.get("trace", []):
-            if st.get("stepType") == "assignment" and st.get("lhs") in inputs and st.get("function") == "main":
+            fn_ = st.get("function") or st.get("sourceLocation", {}).get("function")
+            if st.get("stepType") == "assignment" and st.get("lhs") in inputs and fn_ in ("main", None):
                 b = st.get("value", {}).get("binary")
                 if b:
                     vals[st["lhs"]] = "0x%016x" % int(b, 2)
@@ -316,6 +317,13 @@ def native_check(prop, hexes):
 def make_engine(pid, props):
     """props: list of dict(name, inputs, unwind, timeout{tier}, tiers, bound)."""
     def engine(tier, seed, logdir):
+        return _engine(pid, props, tier, seed, logdir)
+    engine.props = props
+    return engine
+
+
+def _engine(pid, props, tier, seed, logdir):
+    if True:
         res = {"queries": 0, "nontrivial": 0, "passed": 0, "samples": [], "inconclusive": [], "violations": [], "solver_s": 0.0}
         mir, msg = dump_mir()
         if mir is None:
@@ -362,7 +370,7 @@ def make_engine(pid, props):
                     f["native"] = st
                     if st == "fail":
                         rp = os.path.join(runner.EVID, "%s.replay.json" % pid)
-                        json.dump({"property": pid, "engine": "engineF", "prop": pr["name"], "failed_check": f["desc"],
+                        json.dump({"property": pid, "engine": "engineF", "prop": pr["name"], "extra": list(pr.get("extra", ())), "failed_check": f["desc"],
                                    "inputs_f64_bits": f["inputs"], "native_result": txt, "repo": runner.repo_state(),
                                    "how_to_replay": "./check %s --replay %s" % (pid, rp)}, open(rp, "w"), indent=1)
                         res["violations"].append({"harness": pr["name"], "check": f["desc"], "replay": rp})
